@@ -16,6 +16,10 @@ CONSTANTS
   Defect = "rotate-both"
   AllowBadConfig = FALSE
   Emit = FALSE
+  Faults <- NoFaults
+  QS <- NoQ
+  Ops <- AllOps
+  Big = FALSE
 VIEW MCView
 INVARIANTS PresentForHalfWindow
 CHECK_DEADLOCK FALSE
